@@ -372,6 +372,12 @@ func genAssign(t *rapid.T, c RuleSetCfg, rs *RuleSet, xg *XG) gast.Stmt {
 		}
 		e, inf := xg.Int(depth)
 		e = xg.NoBarePtr(e, false)
+		if len(xg.IntPool) > 0 && rapid.IntRange(0, 3).Draw(t, "shared_subexpr") == 0 {
+			// repeat a computed sub-expression of an earlier condition or action verbatim
+			e = gast.Clone(xg.IntPool[rapid.IntRange(0, len(xg.IntPool)-1).Draw(t, "shared_pick")])
+			inf = IntInfo{Exact: true}
+			rs.Feat["rhs_repeats_earlier_subexpression"]++
+		}
 		if op == "*=" {
 			e = gast.I(int64(rapid.IntRange(0, 2).Draw(t, "mul_by")))
 			inf = IntInfo{Exact: true}
@@ -405,6 +411,10 @@ func genAssign(t *rapid.T, c RuleSetCfg, rs *RuleSet, xg *XG) gast.Stmt {
 			return &gast.Assign{LHS: p.Mk(), Op: op, RHS: xg.NoBarePtr(e, false)}
 		}
 		e, _ := xg.Float(depth)
+		if len(xg.FloatPool) > 0 && rapid.IntRange(0, 3).Draw(t, "shared_subexpr") == 0 {
+			e = gast.Clone(xg.FloatPool[rapid.IntRange(0, len(xg.FloatPool)-1).Draw(t, "shared_pick")])
+			rs.Feat["rhs_repeats_earlier_subexpression"]++
+		}
 		return &gast.Assign{LHS: p.Mk(), Op: op, RHS: xg.NoBarePtr(e, true)}
 	case gast.TStr:
 		op := []string{"=", "+="}[rapid.IntRange(0, 1).Draw(t, "assign_op")]
